@@ -126,6 +126,11 @@ func TestVerifBounded_C13_History(t *testing.T) {
 				sort.Slice(toks, func(a, b int) bool { return toks[a] < toks[b] })
 				reg := verifC13Stamp(rnd, now)
 				desc.AddIngester(id, "addr-"+id, fmt.Sprintf("z%d", int(id[1]-'0')%2), toks, ACTIVE, reg, rnd.Intn(4) == 0, reg, map[uint64]uint64{1: uint64(rnd.Intn(3))})
+				if rnd.Intn(2) == 0 { // an entry written by an older lifecycler: no Id inside the entry (clients fill it in from the map key)
+					e := desc.Ingesters[id]
+					e.Id = ""
+					desc.Ingesters[id] = e
+				}
 				trace = append(trace, "register "+id)
 			case 2: // heartbeat / state only
 				if e, ok := desc.Ingesters[id]; ok {
@@ -169,7 +174,7 @@ func TestVerifBounded_C13_History(t *testing.T) {
 			}
 		}
 	}
-	fmt.Printf("BOUNDED-CASES name=C13_History n=%d distinct=%d bound=%d runs x 12 ring updates over 4 instances / 2 zones (register, state/heartbeat only, versions only, read-only toggle, removal; registration and read-only change times on/next to the look-back window starts) with queries in between; answers compared with a fresh client: lookups, read set, counts, shards (sizes 1,2,4; 2 tenants; look-back 1m/1h at 3 query times), token ranges; seed %d\n", cases, cases, runs, seed)
+	fmt.Printf("BOUNDED-CASES name=C13_History n=%d distinct=%d bound=%d runs x 12 ring updates over 4 instances / 2 zones (register with or without the Id field, state/heartbeat only, versions only, read-only toggle, removal; registration and read-only change times on/next to the look-back window starts) with queries in between; answers compared with a fresh client: lookups, read set, counts, shards (sizes 1,2,4; 2 tenants; look-back 1m/1h at 3 query times), token ranges; seed %d\n", cases, cases, runs, seed)
 	if fails > 0 {
 		t.Fatalf("%d mismatches", fails)
 	}
